@@ -169,12 +169,12 @@ Qed.
 
 Lemma dhcp_parse_ack_none_or_some : forall now r ml server,
   repr_typed r -> (forall m, ml = Some m -> 0 <= m) -> 0 <= now < 4611686018427387904 ->
-  dhcp_parse_ack now r ml server <> Panic.
+  exists x, dhcp_parse_ack now r ml server = Ok x.
 Proof.
   intros now r ml server [Hl [H1 H2]] Hm Hn. unfold dhcp_parse_ack.
-  destruct (r_subnet_mask r) as [mask|]; [|discriminate].
-  destruct (ip_prefix_len mask) as [p|]; [|discriminate].
-  destruct (ip_x_is_unicast (r_your_ip r)); cbn [negb]; [|discriminate].
+  destruct (r_subnet_mask r) as [mask|]; [|eauto].
+  destruct (ip_prefix_len mask) as [p|]; [|eauto].
+  destruct (ip_x_is_unicast (r_your_ip r)); cbn [negb]; [|eauto].
   pose proof (dhcp_lease_duration_range r ml Hl Hm) as Hr.
   destruct (dhcp_t1_t2_no_panic (dhcp_lease_duration r ml) (r_renew_duration r) (r_rebind_duration r)) as [a [b Hab]];
     auto; try lia.
@@ -184,7 +184,7 @@ Proof.
   destruct (dh_inst_add_no_panic now b) as [y Hy]; [unfold dh_I64_MAX; lia|unfold dh_I64_MAX, dh_I64_MIN; lia|].
   destruct (dh_inst_add_no_panic now (dhcp_lease_duration r ml)) as [z Hz];
     [unfold dh_I64_MAX; lia|unfold dh_I64_MAX, dh_I64_MIN; lia|].
-  rewrite Hx, Hy, Hz. cbn. discriminate.
+  rewrite Hx, Hy, Hz. cbn. eauto.
 Qed.
 
 (* ------------------------------------------------------------------------------------------------ *)
@@ -1067,4 +1067,229 @@ Proof.
     pose proof (dh_inst_add_le _ _ _ (proj1 Hv0) Hv1) as Hle.
     pose proof (solicit_bound_req (ds_retry_config s) retry ltac:(unfold u64_ok in T2; lia) ltac:(lia)) as Hb.
     splits; auto. lia.
+Qed.
+
+(* ------------------------------------------------------------------------------------------------ *)
+(** * dispatch_no_panic (and process): no Rust panic for timestamps below 2^62 us (146 000 years) and a retry
+      configuration whose back-off stays in range; the exact overflow conditions are the Panic branches of the model,
+      and [c18_shift_overflow_reachable] below shows that outside these bounds the panic IS reachable. *)
+
+Definition dh_T62 : Z := 4611686018427387904.
+Definition time_ok (now : Z) : Prop := 0 <= now < dh_T62.
+
+Definition retry_cfg_sane (rc : dhcp_retry_config) : Prop :=
+  retry_cfg_typed rc /\
+  rc_discover_timeout rc < dh_T62 /\
+  rc_request_retries rc <= 128 /\                                       (* shift amount retry/2 stays below 64 *)
+  rc_initial_request_timeout rc * 2 ^ ((rc_request_retries rc - 1) / 2) < dh_T62 /\
+  rc_min_renew_timeout rc < dh_T62.
+
+Definition call_sane (c : dhcp_call) : Prop :=
+  call_typed c /\
+  match c with
+  | CProcess now _ _ _ _ => time_ok now
+  | CDispatch mtu now _ _ => time_ok now /\ dhcp_MAX_IPV4_HEADER_LEN + wudp_HEADER_LEN <= mtu
+  | CSetRetryConfig rc => retry_cfg_sane rc
+  | _ => True
+  end.
+
+Definition dhcp_tinv (s : dhcp_socket) : Prop :=
+  retry_cfg_sane (ds_retry_config s) /\
+  (forall m, ds_max_lease_duration s = Some m -> 0 <= m) /\
+  match ds_state s with
+  | Requesting _ retry _ _ => 0 <= retry
+  | Renewing _ _ rb rbg e => 0 <= e < dh_T62 + 4294967296000000 /\ (rbg = false -> 0 <= rb /\ rb <= e)
+  | Discovering _ => True
+  end.
+
+Lemma retry_default_sane : retry_cfg_sane dhcp_retry_default.
+Proof.
+  unfold retry_cfg_sane, retry_cfg_typed, u64_ok, dhcp_retry_default, dh_DURATION_MAX, dh_T62. cbn.
+  splits; try lia. vm_compute. reflexivity.
+Qed.
+
+Lemma dhcp_tinv_init : dhcp_tinv dhcp_new.
+Proof. unfold dhcp_tinv, dhcp_new. cbn. splits; auto. apply retry_default_sane. discriminate. Qed.
+
+Lemma dhcp_tinv_reset : forall s, dhcp_tinv s -> dhcp_tinv (dhcp_reset s).
+Proof.
+  intros s [H1 [H2 H3]]. unfold dhcp_tinv. rewrite dhcp_reset_retry_config, dhcp_reset_max_lease, dhcp_reset_state. auto.
+Qed.
+
+Lemma dhcp_process_safe : forall hw s now src sp dp parsed,
+  dhcp_tinv s -> call_sane (CProcess now src sp dp parsed) ->
+  sp = ds_server_port s -> dp = ds_client_port s ->
+  exists s', dhcp_process hw now src sp dp parsed s = Ok s' /\ dhcp_tinv s'.
+Proof.
+  intros hw s now src sp dp parsed Ht [Hty Hnow] -> ->. pose proof Ht as [H1 [H2 H3]].
+  unfold dhcp_process. rewrite !Z.eqb_refl. cbn [andb negb].
+  destruct parsed as [r|]; [|eauto]. cbn in Hty.
+  destruct (negb (r_client_hardware_address r =? hw)); [eauto|].
+  destruct (negb (r_transaction_id r =? ds_transaction_id s)); [eauto|].
+  destruct (r_server_identifier r) as [sid|]; [|eauto].
+  assert (Hpa : forall server, (exists x, dhcp_parse_ack now r (ds_max_lease_duration s) server = Ok (Some x)) \/
+                               dhcp_parse_ack now r (ds_max_lease_duration s) server = Ok None).
+  { intros server. destruct (dhcp_parse_ack_none_or_some now r (ds_max_lease_duration s) server Hty H2 Hnow) as [[x|] Hx];
+      rewrite Hx; eauto. }
+  assert (Hok : forall server c ra rb e, dhcp_parse_ack now r (ds_max_lease_duration s) server = Ok (Some (c, ra, rb, e)) ->
+                 0 <= e < dh_T62 + 4294967296000000 /\ 0 <= rb /\ rb <= e).
+  { intros server c ra rb e Hp. apply dhcp_parse_ack_some in Hp; auto.
+    destruct Hp as [_ [_ [_ [K4 [K5 [K6 K7]]]]]].
+    pose proof (dhcp_lease_duration_range r (ds_max_lease_duration s) (proj1 Hty) H2). unfold time_ok in Hnow. lia. }
+  destruct (ds_state s) as [ra0 | ra0 retry server rip | cfg ra0 rb0 rbg e0] eqn:Est;
+    destruct (r_message_type r); eauto.
+  - destruct (negb (ip_x_is_unicast (r_your_ip r))); [eauto|].
+    destruct (negb (ip_x_is_unicast src)); [eauto|].
+    eexists. split; [reflexivity|]. unfold dhcp_tinv. cbn. splits; auto. lia.
+  - destruct (retry =? 0); [eauto|].
+    destruct (Hpa server) as [[[[[c ra] rb] e] Hx] | Hx]; rewrite Hx; cbn [obind]; [|eauto].
+    eexists. split; [reflexivity|]. apply Hok in Hx. unfold dhcp_tinv. cbn. splits; auto; lia.
+  - destruct (ds_ignore_naks s); [eauto|]. eexists. split; [reflexivity|]. apply dhcp_tinv_reset; auto.
+  - destruct (Hpa (cf_server cfg)) as [[[[[c ra] rb] e] Hx] | Hx]; rewrite Hx; cbn [obind]; [|eauto].
+    apply Hok in Hx.
+    destruct (negb (dhcp_config_eqb cfg c) || ds_has_rx_buffer s);
+      (eexists; split; [reflexivity|]; unfold dhcp_tinv; cbn; splits; auto; lia).
+  - destruct (ds_ignore_naks s); [eauto|]. eexists. split; [reflexivity|]. apply dhcp_tinv_reset; auto.
+Qed.
+
+Lemma dhcp_dispatch_discovering_safe : forall ms now xid emit s0 ra,
+  dhcp_tinv s0 -> time_ok now -> ds_state s0 = Discovering ra ->
+  exists s' res, dhcp_dispatch_discovering ms now xid emit s0 ra = Ok (s', res) /\ dhcp_tinv s'.
+Proof.
+  intros ms now xid emit s0 ra Ht Hn Hst. pose proof Ht as [[[T1 _] [S1 _]] [H2 H3]].
+  unfold dhcp_dispatch_discovering. destruct (now <? ra); [eauto|].
+  match goal with |- context [emit ?f] => destruct (emit f) end; [|eauto].
+  unfold time_ok, dh_T62, u64_ok in *.
+  destruct (dh_inst_add_no_panic now (rc_discover_timeout (ds_retry_config s0))) as [x Hx];
+    [unfold dh_I64_MAX; lia|unfold dh_I64_MAX, dh_I64_MIN; lia|].
+  rewrite Hx. cbn [obind]. eexists _, _. split; [reflexivity|].
+  destruct Ht as [A [B _]]. unfold dhcp_tinv. cbn. auto.
+Qed.
+
+Lemma dhcp_dispatch_safe : forall s mtu now xid emit,
+  dhcp_tinv s -> time_ok now -> dhcp_MAX_IPV4_HEADER_LEN + wudp_HEADER_LEN <= mtu ->
+  exists s' res, dhcp_dispatch mtu now xid emit s = Ok (s', res) /\ dhcp_tinv s'.
+Proof.
+  intros s mtu now xid emit Ht Hn Hmtu.
+  pose proof (proj1 Ht) as Hsane.
+  pose proof Ht as [[[T1 [T2 [T3 [T4 T5]]]] [S1 [S2 [S3 S4]]]] [H2 H3]].
+  unfold dhcp_dispatch, dhcp_max_size.
+  destruct (mtu <? dhcp_MAX_IPV4_HEADER_LEN + wudp_HEADER_LEN) eqn:Em; [lia|]. cbn [obind].
+  set (ms := (mtu - dhcp_MAX_IPV4_HEADER_LEN - wudp_HEADER_LEN) mod 65536).
+  destruct (ds_state s) as [ra0 | ra0 retry server rip | cfg ra0 rb0 rbg e0] eqn:Est.
+  - apply dhcp_dispatch_discovering_safe; auto.
+  - destruct (now <? ra0); [eauto|].
+    destruct (rc_request_retries (ds_retry_config s) <=? retry) eqn:Eex.
+    { apply dhcp_dispatch_discovering_safe; auto using dhcp_tinv_reset, dhcp_reset_state. }
+    match goal with |- context [emit ?f] => destruct (emit f) end; [|eauto].
+    assert (Hk : 0 <= retry / 2 < 64) by (split; [apply Z.div_pos; lia|apply Z.div_lt_upper_bound; lia]).
+    assert (Hpow : rc_initial_request_timeout (ds_retry_config s) * 2 ^ (retry / 2) < dh_T62).
+    { pose proof (solicit_bound_req (ds_retry_config s) retry ltac:(unfold u64_ok in T2; lia) ltac:(lia)) as Hb.
+      unfold solicit_bound in Hb.
+      assert (2 ^ (retry / 2) <= 2 ^ ((rc_request_retries (ds_retry_config s) - 1) / 2)).
+      { apply Z.pow_le_mono_r; [lia|]. apply Z.div_le_mono; lia. }
+      unfold u64_ok in T2. nia. }
+    assert (Hnn : 0 <= rc_initial_request_timeout (ds_retry_config s) * 2 ^ (retry / 2)).
+    { apply Z.mul_nonneg_nonneg; [unfold u64_ok in T2; lia|apply Z.pow_nonneg; lia]. }
+    unfold dh_dur_shl. destruct (retry / 2 <? 64) eqn:Ek; [|lia]. cbn [obind].
+    rewrite Z.mod_small by (unfold dh_U64, dh_T62 in *; lia).
+    unfold time_ok, dh_T62 in *.
+    destruct (dh_inst_add_no_panic now (rc_initial_request_timeout (ds_retry_config s) * 2 ^ (retry / 2))) as [x Hx];
+      [unfold dh_I64_MAX; lia|unfold dh_I64_MAX, dh_I64_MIN; lia|].
+    rewrite Hx. cbn [obind]. destruct (65535 <? retry + 1) eqn:Eov; [lia|].
+    eexists _, _. split; [reflexivity|]. unfold dhcp_tinv. cbn. splits; auto. lia.
+  - destruct H3 as [He Hrb].
+    destruct (e0 <=? now) eqn:Eexp.
+    { apply dhcp_dispatch_discovering_safe; auto using dhcp_tinv_reset, dhcp_reset_state. }
+    destruct ((now <? ra0) || (rbg && (now <? rb0))) eqn:Ew; [eauto|].
+    match goal with |- context [emit ?f] => destruct (emit f) end.
+    2:{ eexists _, _. split; [reflexivity|]. unfold dhcp_tinv. cbn. splits; auto; try (unfold dh_T62 in *; lia).
+        intros Hf. apply orb_false_iff in Hf. destruct Hf as [-> _]. auto. }
+    unfold time_ok, dh_T62, u64_ok in *.
+    destruct (rbg || (rb0 <=? now)) eqn:Erb.
+    + destruct (dh_inst_sub_no_panic e0 now) as [d Hd]; [unfold dh_I64_MAX, dh_I64_MIN; lia|].
+      rewrite Hd. cbn [obind]. apply dh_inst_sub_ok in Hd. destruct Hd as [-> _].
+      set (w := Z.min (Z.max (rc_min_renew_timeout (ds_retry_config s)) (Z.abs (e0 - now) / 2))
+                      (rc_max_renew_timeout (ds_retry_config s))).
+      assert (Hw : 0 <= w < 4611686018427387904) by (subst w; lia).
+      destruct (dh_inst_add_no_panic now w) as [x Hx]; [unfold dh_I64_MAX; lia|unfold dh_I64_MAX, dh_I64_MIN; lia|].
+      rewrite Hx. cbn [obind]. eexists _, _. split; [reflexivity|].
+      unfold dhcp_tinv. cbn. splits; auto; try (unfold dh_T62 in *; lia); try discriminate.
+    + apply orb_false_iff in Erb. destruct Erb as [-> Erb]. specialize (Hrb eq_refl).
+      destruct (dh_inst_sub_no_panic rb0 now) as [d Hd]; [unfold dh_I64_MAX, dh_I64_MIN; lia|].
+      rewrite Hd. cbn [obind]. apply dh_inst_sub_ok in Hd. destruct Hd as [-> _].
+      set (w := Z.min (Z.min (Z.max (rc_min_renew_timeout (ds_retry_config s)) (Z.abs (rb0 - now) / 2)) (Z.abs (rb0 - now)))
+                      (rc_max_renew_timeout (ds_retry_config s))).
+      assert (Hw : 0 <= w <= rb0 - now) by (subst w; lia).
+      destruct (dh_inst_add_no_panic now w) as [x Hx]; [unfold dh_I64_MAX; lia|unfold dh_I64_MAX, dh_I64_MIN; lia|].
+      rewrite Hx. cbn [obind]. eexists _, _. split; [reflexivity|].
+      unfold dhcp_tinv. cbn. splits; auto; try (unfold dh_T62 in *; lia).
+Qed.
+
+(* ports handed to process() are the socket's (enforced by the interface before it calls process) *)
+Definition ports_match (s : dhcp_socket) (c : dhcp_call) : Prop :=
+  match c with CProcess _ _ sp dp _ => sp = ds_server_port s /\ dp = ds_client_port s | _ => True end.
+
+Lemma dhcp_call_step_safe : forall hw s c,
+  dhcp_tinv s -> call_sane c -> ports_match s c ->
+  exists s' ret, dhcp_call_step hw s c = Ok (s', ret) /\ dhcp_tinv s'.
+Proof.
+  intros hw s c Ht Hc Hp. destruct c; cbn [dhcp_call_step].
+  - destruct Hp as [-> ->]. destruct (dhcp_process_safe hw s now src_ip _ _ parsed Ht Hc eq_refl eq_refl) as [s' [E Ht']].
+    rewrite E. cbn. eauto.
+  - destruct Hc as [_ [Hn Hm]]. destruct (dhcp_dispatch_safe s ip_mtu now next_xid (fun _ => emit_ok) Ht Hn Hm) as [s' [res [E Ht']]].
+    rewrite E. cbn. eauto.
+  - destruct (dhcp_poll s) as [s' e] eqn:Ep. eexists _, _. split; [reflexivity|].
+    unfold dhcp_poll in Ep. destruct Ht as [A [B C]].
+    destruct (negb (ds_config_changed s)); [inversion Ep; subst; unfold dhcp_tinv; auto|].
+    destruct (ds_state s) eqn:Est; inversion Ep; subst; unfold dhcp_tinv; cbn; rewrite Est; auto.
+  - eexists _, _. split; [reflexivity|]. apply dhcp_tinv_reset; auto.
+  - eexists _, _. split; [reflexivity|]. destruct Ht as [A [B C]]. destruct Hc as [_ Hc]. unfold dhcp_tinv. cbn. auto.
+  - eexists _, _. split; [reflexivity|]. destruct Ht as [A [B C]]. destruct Hc as [Hc _]. unfold dhcp_tinv. cbn.
+    splits; auto. intros x Hx. subst m. cbn in Hc. unfold u64_ok in Hc. lia.
+  - eexists _, _. split; [reflexivity|]. destruct Ht as [A [B C]]. unfold dhcp_tinv. cbn. auto.
+  - eexists _, _. split; [reflexivity|]. destruct Ht as [A [B C]]. unfold dhcp_tinv. cbn. auto.
+  - eexists _, _. split; [reflexivity|]. destruct Ht as [A [B C]]. unfold dhcp_tinv. cbn. auto.
+Qed.
+
+(* histories in which the interface hands process() only datagrams for the socket's ports *)
+Fixpoint ports_ok (hw : Z) (pre : list dhcp_call) (rest : list dhcp_call) : Prop :=
+  match rest with
+  | [] => True
+  | c :: rest' => ports_match (fst (dhcp_run hw pre)) c /\ ports_ok hw (pre ++ [c]) rest'
+  end.
+
+Lemma dhcp_tinv_run_gen : forall hw rest pre,
+  dhcp_tinv (fst (dhcp_run hw pre)) -> Forall call_sane rest -> ports_ok hw pre rest ->
+  dhcp_tinv (fst (dhcp_run hw (pre ++ rest))).
+Proof.
+  intros hw rest. induction rest as [|c rest IH]; intros pre Ht Hs Hp.
+  - rewrite app_nil_r. auto.
+  - inversion Hs; subst. destruct Hp as [Hp1 Hp2].
+    replace (pre ++ c :: rest) with ((pre ++ [c]) ++ rest) by (rewrite <- app_assoc; reflexivity).
+    apply IH; auto. rewrite dhcp_run_snoc. unfold dhcp_step_total.
+    destruct (dhcp_call_step_safe hw (fst (dhcp_run hw pre)) c Ht H1 Hp1) as [s' [ret [E Ht']]].
+    rewrite E. cbn. auto.
+Qed.
+
+Theorem c18_no_panic : forall hw calls c,
+  Forall call_sane calls -> ports_ok hw [] calls ->
+  call_sane c -> ports_match (fst (dhcp_run hw calls)) c ->
+  dhcp_call_step hw (fst (dhcp_run hw calls)) c <> Panic.
+Proof.
+  intros hw calls c Hs Hp Hc Hpc.
+  assert (Ht : dhcp_tinv (fst (dhcp_run hw calls))).
+  { apply (dhcp_tinv_run_gen hw calls []); auto. apply dhcp_tinv_init. }
+  destruct (dhcp_call_step_safe hw _ c Ht Hc Hpc) as [s' [ret [E _]]]. rewrite E. discriminate.
+Qed.
+
+Theorem c18_dispatch_no_panic : forall hw calls mtu now xid emit,
+  Forall call_sane calls -> ports_ok hw [] calls ->
+  time_ok now -> dhcp_MAX_IPV4_HEADER_LEN + wudp_HEADER_LEN <= mtu ->
+  dhcp_dispatch mtu now xid emit (fst (dhcp_run hw calls)) <> Panic.
+Proof.
+  intros hw calls mtu now xid emit Hs Hp Hn Hm.
+  assert (Ht : dhcp_tinv (fst (dhcp_run hw calls))).
+  { apply (dhcp_tinv_run_gen hw calls []); auto. apply dhcp_tinv_init. }
+  destruct (dhcp_dispatch_safe _ mtu now xid emit Ht Hn Hm) as [s' [res [E _]]]. rewrite E. discriminate.
 Qed.
